@@ -76,7 +76,7 @@ def _c01():
          "bound": "consume_escaped_char on a lone backslash at end of input"},
         {"name": "c18::c19a_relex_2byte_then_ascii", "tiers": Q, "covers": ["end", "text_longer_than_span", "text_fits"],
          "bound": "error-span construction over re-lexed multi-byte text never trips Span::subspan's assertion (span length 0..8)"},
-        {"name": "c16::c16a_clamp_none_px_em", "tiers": Q, "flags": ST + ("--no-memory-safety-checks",), "timeout": 1500, "covers": ["end", "kept_calculation"],
+        {"name": "c16::c16a_clamp_none_px_em", "tiers": Q, "flags": ST + ("--no-memory-safety-checks",), "covers": ["kept_calculation"],
          "bound": "clamp(unitless, px, em): no unit conversion outside the table (panic in Number::convert)"},
     ]
     return {
@@ -212,20 +212,24 @@ def _c16():
     hs = [H("c16::c16b_paren_rules_%s" % o, "outer operator %s, every inner operator, both operand sides, integer leaves in [-4,4], "
             "exact rational evaluation" % o, covers=("end", "lhs_unparenthesised")) for o in ("plus", "minus", "mul", "div")]
     from . import engine_t
-    CL = {"none_px_em": (Q, ("end", "kept_calculation")), "px_in_pt": (Q, ("end", "reduced")), "px_px_px": (T, ("end", "reduced")),
-          "none_none_none": (Q, ("end", "reduced")), "px_em_px": (T, ("end",)), "none_px_px": (Q, ("end",)),
-          "px_none_px": (T, ("end",)), "px_px_none": (T, ("end",)), "deg_px_px": (T, ("end",)), "px_in_em": (T, ("end",)),
-          "em_em_em": (T, ("end", "reduced")), "none_px_in": (T, ("end",))}
+    KEPT = ("kept_calculation",)
+    RED = ("end", "reduced")
+    CL = {"none_px_em": (Q, KEPT), "px_in_pt": (Q, RED), "px_px_px": (Q, RED), "none_none_none": (Q, RED), "px_em_px": (Q, KEPT),
+          "none_px_px": (Q, KEPT), "px_none_px": (T, KEPT), "px_px_none": (T, KEPT), "deg_px_px": (T, KEPT), "px_in_em": (Q, KEPT),
+          "em_em_em": (T, RED), "none_px_in": (T, KEPT)}
     NMS = ST + ("--no-memory-safety-checks",)
     hs += [H("c16::c16a_clamp_" + k, "SassCalculation::clamp(min, value, max) with units %s, magnitudes from {0,1,2,96,-3}" % k.replace("_", ", "),
-             tiers=t, covers=c, flags=NMS, timeout=1500) for k, (t, c) in CL.items()]
+             tiers=t, covers=c, flags=NMS) for k, (t, c) in CL.items()]
     return _simple(hs, ["value::calculation::SassCalculation::{clamp, simplify, verify_length, verify_compatible_numbers}", "sass_number::SassNumber::{is_comparable_to, has_compatible_units}", "value::calculation::CalculationArg::parenthesize_calculation_rhs", "common::BinaryOp::precedence "
                         "(left-operand rule of Serializer::write_calculation_arg)"],
                    "operation trees of depth 2 over + - * /; leaves integers in [-4,4]; clamp over the listed unit triples",
                    "the serializer's emission of the text (reaches core::fmt::write, whose fn-pointer dispatch does not finish "
                    "under CBMC), SassCalculation::{min,max,operate_internal}, nested calc flattening, variables/interpolation",
                    stubs=[RS_STUB, FMT_STUB, "Number::convert -> contract stub asserting the pair is in the dumped table",
-                          "SassNumber::has_possibly_compatible_units -> arbitrary bool (HashSet-backed)"],
+                          "SassNumber::has_possibly_compatible_units -> arbitrary bool (HashSet-backed)",
+                          "serializer::inspect_number -> empty string (error text)",
+                          "CUT: SassCalculation::verify_length -> assume(false): the kept-calculation path of clamp() is ended at its first "
+                          "step (argument Vec growth makes every later step explore all CalculationArg variants: > 25 min / 14 GB)"],
                    pre=[engine_t.dump_units])
 
 
